@@ -230,7 +230,7 @@ func c10Good(c *Ctx, idx int) {
 		}
 		lu, lt = fmt.Sprintf("127.0.0.1:%d", ports[0]), fmt.Sprintf("127.0.0.1:%d", ports[1])
 		y := cfg.yaml(dir, upAddr, lu, lt)
-		p, err = proxyproc.Start(proxyproc.Opts{Bin: proxyBin(), Dir: filepath.Join(dir, fmt.Sprintf("proxy%d", attempt)), YAML: y})
+		p, err = proxyproc.Start(proxyproc.Opts{Bin: proxyBin(), Dir: filepath.Join(dir, fmt.Sprintf("proxy%d", attempt)), YAML: y, Env: map[string]string{"VERIF_POINTS": "prefetch.start=sleep(2ms,100.0%)"}})
 		if err == nil {
 			break
 		}
@@ -382,14 +382,14 @@ func c10Good(c *Ctx, idx int) {
 			c.Ev.Count("probes_"+c10Outcome(pr.rcode, pr.up), 1)
 		}
 	}
-	// with the cache on: ask the forwarded probes of this configuration again when their 2 s entries
-	// are in the last quarter of their lifetime (the hit starts a background refresh towards the
+	// with the cache on (a third of those configurations): ask forwarded probes again when their entries
+	// (6 s) are in the last quarter of their lifetime (the hit starts a background refresh towards the
 	// rule's upstream), then look at everything the upstreams received
-	if cfg.Cache {
+	if cfg.Cache && idx%3 == 0 {
 		var late []*probe
 		for k := 0; k < 6; k++ {
 			suf := gen.Pick(r, c10Suffixes)
-			name := c03RandCase(r, fmt.Sprintf("ok-ttl2-q%dx%d.%s.", k, idx, suf))
+			name := c03RandCase(r, fmt.Sprintf("ok-ttl6-q%dx%d.%s.", k, idx, suf))
 			pr := &probe{name: name, qtype: dns.TypeA, class: dns.ClassINET}
 			pr.idx, pr.rcode, pr.up = c10Eval(cfg, name)
 			if pr.up != "" {
@@ -412,7 +412,7 @@ func c10Good(c *Ctx, idx int) {
 			for _, pr := range late {
 				ask(pr)
 			}
-			time.Sleep(1650 * time.Millisecond)
+			time.Sleep(4750 * time.Millisecond) // 6 s entries: last quarter from 4.5 s, 1.25 s remain
 			var wg sync.WaitGroup
 			for rep := 0; rep < 3; rep++ { // several requests in flight at once: request objects are recycled meanwhile
 				for _, pr := range late {
